@@ -24,14 +24,28 @@ def norm(strict, s):
 
 
 def record(pkgs=(".", "./pkg/handlers")):
+    """one test process per package, one raw file per process (router ids are per process), merged with a package prefix"""
     raw = os.path.join(core.scratch(), "repo-events.ndjson")
-    open(raw, "w").close()
-    env = core.go_env()
-    env["VERIF_TRACE"] = raw
-    p = subprocess.run(["go", "test", "-tags", "verif", "-vet=off", "-count=1"] + list(pkgs), cwd=core.REPO, env=env,
-                       stdout=subprocess.PIPE, stderr=subprocess.STDOUT, text=True, timeout=1200)
-    if p.returncode != 0:
-        raise core.Inconclusive("the repository's tests fail with -tags verif:\n" + p.stdout[-2000:])
+    with open(raw, "w") as fo:
+        for i, pkg in enumerate(pkgs):
+            part = os.path.join(core.scratch(), "repo-events-%d.ndjson" % i)
+            open(part, "w").close()
+            env = core.go_env()
+            env["VERIF_TRACE"] = part
+            p = subprocess.run(["go", "test", "-tags", "verif", "-vet=off", "-count=1", pkg], cwd=core.REPO, env=env,
+                               stdout=subprocess.PIPE, stderr=subprocess.STDOUT, text=True, timeout=1200)
+            if p.returncode != 0:
+                raise core.Inconclusive("the repository's tests fail with -tags verif:\n" + p.stdout[-2000:])
+            for ln in open(part):
+                try:
+                    e = json.loads(ln)
+                except ValueError:
+                    continue
+                e["router"] = "%d:%s" % (i, e["router"])
+                if "rid" in e and e["rid"]:
+                    e["rid"] = "%d:%s" % (i, e["rid"])
+                fo.write(json.dumps(e) + "\n")
+            os.remove(part)
     return raw
 
 
